@@ -215,10 +215,14 @@ class ModuleResidue:
                 if isinstance(v, self._SC):
                     self.items.append((m.__name__, g, k, v, False))
                 elif isinstance(v, (dict, list, set)):
-                    self.items.append((m.__name__, g, k, _canon_val(v, 2), True))
+                    # (large tables -- __all__, status maps -- are constants: only their length is watched)
+                    self.items.append((m.__name__, g, k, (_canon_val(v, 2) if len(v) <= 16 else None, len(v)), True))
         # data kept as attributes of function objects (flags on decorators' wrappers ...)
         self.fns = module_functions(modules)
         self.fbase = [self._fattrs(f) for f in self.fns]
+        # fast path: (function, number of attributes, raw scalar attributes) as they were
+        self.fquick = [(f, len(f.__dict__), {k: v for k, v in f.__dict__.items() if isinstance(v, self._SC + (str,))})
+                       for f in self.fns]
         # ... and in closure cells (a decorator's private cache)
         self.cells = []
         for f in self.fns:
@@ -240,9 +244,16 @@ class ModuleResidue:
         for mn, g, k, b, container in self.items:
             v = g.get(k, "<absent>")
             if container:
-                c = _canon_val(v, 2)
-                if c != b:
-                    out.append((mn, k, c))
+                try:
+                    n = len(v)
+                except TypeError:
+                    n = -1
+                if n != b[1]:
+                    out.append((mn, k, _canon_val(v, 2)))
+                elif b[0] is not None:
+                    c = _canon_val(v, 2)
+                    if c != b[0]:
+                        out.append((mn, k, c))
             elif v is not b and (type(v) is not type(b) or v != b):
                 out.append((mn, k, _canon_val(v, 2)))
         for m in self.mods:
@@ -252,14 +263,23 @@ class ModuleResidue:
                     if k not in self.names[m.__name__] and k not in self.known and isinstance(g[k], self._SC + (dict, list, set)):
                         out.append((m.__name__, k, _canon_val(g[k], 2)))
         for f, i, cell, b in self.cells:
-            c = _canon_val(cell.cell_contents, 2)
+            v = cell.cell_contents
+            if not v and not b:
+                continue
+            c = _canon_val(v, 2)
             if c != b:
                 out.append(("cell", getattr(f, "__qualname__", str(f)), i, c))
-        for f, b in zip(self.fns, self.fbase):
-            if f.__dict__:
-                c = self._fattrs(f)
-                if c != b:
-                    out.append(("fn", getattr(f, "__qualname__", str(f)), c))
+        for (f, n, sc), b in zip(self.fquick, self.fbase):
+            d = f.__dict__
+            if not d and not n:
+                continue
+            if len(d) == n and not b:
+                continue          # only callables hang on it, as before
+            if len(d) == n and all(d.get(k, d) is v or d.get(k, d) == v for k, v in sc.items()) and len(sc) == len(b):
+                continue          # same attributes, same scalars, and there were no container attributes
+            c = self._fattrs(f)
+            if c != b:
+                out.append(("fn", getattr(f, "__qualname__", str(f)), c))
         return sorted(out, key=repr)
 
 
